@@ -127,6 +127,45 @@ func isChoiceType(t reflect.Type) bool {
 	return t.Kind() == reflect.Struct && t.NumField() > 0 && t.Field(0).Name == "Present"
 }
 
+// expectedUniversalTag is the universal tag an untagged element decoded into t must carry;
+// ok is false where any tag may appear (CHOICE) or the check is made one level down
+// (Value / List wrappers).
+func expectedUniversalTag(t reflect.Type, params fieldParameters) (tag uint64, ok bool) {
+	switch t {
+	case BitStringType:
+		return TagBitString, true
+	case ObjectIdentifierType:
+		return TagOID, true
+	case OctetStringType:
+		return TagOctetString, true
+	case EnumeratedType:
+		return TagEnumerated, true
+	case NullType:
+		return TagNull, true
+	}
+	switch t.Kind() {
+	case reflect.Bool:
+		return TagBoolean, true
+	case reflect.Int, reflect.Int32, reflect.Int64:
+		return TagInteger, true
+	case reflect.String:
+		return uint64(stringTag(t, params)), true
+	case reflect.Struct:
+		if t.NumField() > 0 {
+			if name := t.Field(0).Name; name == "Value" || name == "List" || name == "Present" {
+				return 0, false
+			}
+		}
+		fallthrough
+	case reflect.Slice:
+		if params.set {
+			return TagSet, true
+		}
+		return TagSequence, true
+	}
+	return 0, false
+}
+
 // ParseField is the main parsing function. Given a byte slice containing type value,
 // it will try to parse a suitable ASN.1 value out and store it
 // in the given Value. TODO : ObjectIdenfier
@@ -146,6 +185,17 @@ func ParseField(v reflect.Value, bytes []byte, params fieldParameters) error {
 	}
 	if int64(talOff)+tal.len > int64(len(bytes)) {
 		return fmt.Errorf("type value out of range")
+	}
+
+	// The element must carry the tag its type and parameters call for.
+	if params.tagNumber != nil {
+		if tal.class != ClassContextSpecific || tal.tagNumber != *params.tagNumber {
+			return fmt.Errorf("unexpected tag: class %d number %d", tal.class, tal.tagNumber)
+		}
+	} else if expected, ok := expectedUniversalTag(fieldType, params); ok {
+		if tal.class != ClassUniversal || tal.tagNumber != expected {
+			return fmt.Errorf("unexpected tag: class %d number %d", tal.class, tal.tagNumber)
+		}
 	}
 
 	// EXPLICIT tagging: the element proper is the content of the context tag
